@@ -1,7 +1,5 @@
 package hotline
 
-import "io"
-
 // c01SymTran builds a transaction with nfields fields. The last field's data length is symbolic over 0..maxData;
 // earlier fields have every concrete length 0..small (one path each), so all segment offsets but the last length
 // are concrete. With small < 0 every field is fully symbolic (thorough tier).
@@ -60,23 +58,7 @@ func VH_C01_TransactionLayout() {
 func VH_C01_TransactionDrain() {
 	t, ref := c01SymTran(2, 65535, 2)
 	full := refTransaction(t, ref)
-	L := len(full)
-	o := vInt("cursor")
-	vAssume(0 <= o && o <= L)
-	k := vInt("bufsize")
-	vAssume(1 <= k && k <= 140000)
-	t.readOffset = o
-	p := make([]byte, k)
-	n, err := t.Read(p)
-	vObserveInt("n", n)
-	if o == L {
-		vAssert("eof", n == 0 && err == io.EOF)
-		return
-	}
-	vAssert("n", n == vMin(k, L-o))
-	vAssert("err", err == nil || (err == io.EOF && o+n == L))
-	vAssertEqBytes("bytes", p[:n], full[o:o+n])
-	vAssert("cursor", t.readOffset == o+n)
+	c01DrainStep(vEnc{t.Read, func(o int) { t.readOffset = o }, func() int { return t.readOffset }}, full, 140000)
 }
 
 // decode(encode(t)) == t for transactions with 0..2 fields (the last one with a symbolic data length).
@@ -103,3 +85,41 @@ func c01RoundTrip(maxData int) {
 
 func VH_C01_TransactionRoundTrip_quick()    { c01RoundTrip(4000) }
 func VH_C01_TransactionRoundTrip_thorough() { c01RoundTrip(65535) }
+
+// Round trip at the edges of the 16-bit field length (concrete lengths, arbitrary content).
+func VH_C01_TransactionRoundTripBoundary() {
+	lens := []int{0, 1, 65531, 65532, 65533, 65535}
+	n := lens[vChoice("boundary_len", 6)]
+	f0, f1 := vU8("ft0"), vU8("ft1")
+	data := vBytesN("fdata", n)
+	t := &Transaction{Type: TranType{vU8("ty0"), vU8("ty1")}}
+	copy(t.ID[:], vBytesN("id", 4))
+	t.Fields = []Field{NewField([2]byte{f0, f1}, data)}
+	enc := refTransaction(t, [][]byte{refField(f0, f1, data)})
+	var d Transaction
+	k, err := d.Write(enc)
+	vAssert("boundary_decode_ok", err == nil && k == len(enc))
+	vAssert("boundary_field_count", len(d.Fields) == 1)
+	if len(d.Fields) == 1 {
+		vAssert("boundary_field_type", d.Fields[0].Type == [2]byte{f0, f1})
+		vAssertEqBytes("boundary_field_data", d.Fields[0].Data, data)
+	}
+}
+
+// The field splitter frames exactly id(2) size(2) data(size) for every input.
+func VH_C01_FieldScannerFrames() {
+	data := vBytes("data", 70000)
+	adv, tok, err := FieldScanner(data, false)
+	vAssert("no_error", err == nil)
+	if len(data) >= 4 {
+		size := int(data[2])<<8 | int(data[3])
+		if 4+size <= len(data) {
+			vAssert("field_frame_len", adv == 4+size)
+			vAssertEqBytes("field_frame_token", tok, data[:4+size])
+		} else {
+			vAssert("field_need_more", adv == 0 && tok == nil)
+		}
+	} else {
+		vAssert("field_need_more_short", adv == 0 && tok == nil)
+	}
+}
